@@ -1,11 +1,13 @@
-From HD Require Import common.Base timeout.Model timeout.Spec.
+From HD Require Import common.Base timeout.Model timeout.Spec timeout.Sched.
 
-Definition case := tcase.
+(* a case = the closed-form case plus the instants of additional (spurious) polls by the driving task;
+   the model side is the poll-by-poll [run_sched] (equal to [run_timeout] for every list: Sched.run_sched_eq) *)
+Definition case := (tcase * list N)%type.
 (* result, resolved at (None = never), inner dropped at *)
 Definition obs := (tres * option N * option N)%type.
 
 Definition model_obs (c : case) : obs :=
-  let '(r, t) := run_timeout c in (r, Some t, Some (inner_dropped_at c)).
+  let '(r, t) := run_sched (fst c) (snd c) in (r, Some t, Some t).
 
 Definition obs_eqb (a b : obs) : bool :=
   tres_eqb (fst (fst a)) (fst (fst b)) && option_eqb N.eqb (snd (fst a)) (snd (fst b))
@@ -13,7 +15,7 @@ Definition obs_eqb (a b : obs) : bool :=
 
 Definition mon (c : case) (o : obs) : bool :=
   match o with
-  | (r, Some t, Some dr) => mon_C19 c r t dr
+  | (r, Some t, Some dr) => mon_C19 (fst c) r t dr
   | _ => false
   end.
 
